@@ -62,6 +62,35 @@ CLAIMED = {
                   "function_annotations.rs/cfg_error.rs by comparing error kinds, payloads and locations.",
              design="8/C16", note=NOTE + "Relies on the fix commit that introduced the two specific error kinds.",
              technique="Coq proof (case analysis of the error paths, provenance invariant of the value analysis) + differential correspondence"),
+
+ "C01": dict(text="Value analysis soundness: Coq theorem C01_claims_hold_on_executions proves, over an RV32IM machine written from the ISA (arithmetic = the "
+                  "FoldSpec of C08, byte-addressed little-endian memory, calls summarised by the calling convention, ecalls by the RARS table), that for ANY "
+                  "graph whose facts satisfy the analysis equations and any execution of any length from an entry node inside the supported subset, every "
+                  "constant / label-address / entry-value-plus-constant claim on a register or stack slot is true of the machine state before and after "
+                  "every node reached; corollary: the a7 value, stack offset and 'original value' facts the lints read are true. Proved by transfer "
+                  "soundness for every node kind and all seven rules, meet soundness, induction over executions. Tied to available.rs/gen_kill.rs by "
+                  "comparing all value facts after each of the three runs of the pass; a concrete interpreter executes every program over the "
+                  "implementation's own graph and checks each claim against the machine (this oracle found defect D41).",
+             design="8/C01", note=NOTE + "Hypotheses: AvailEqns (C12), Sym (C03), no edge into an entry node, registers<32 / 32-bit immediates (typing), no CSR instructions, "
+                  "no RV64-only forms, jalr only as ret, non-sp stores stay 2 MiB from the entry sp, sp-relative stores and calls happen at a known stack position "
+                  "within a 1 MiB window. Nine value-analysis defects were repaired first (fix commits); CSR facts remain outside the theorem.",
+             technique="Coq proof (abstract-interpretation soundness against an ISA-level machine) + differential correspondence + concrete-execution oracle"),
+ "C06": dict(text="Termination/no crash: Coq theorems prove that lexing any text and parsing any include graph over the in-memory reader (any faults) always "
+                  "return (no panic site reachable, fuel suffices), that the pipeline and lints never panic, and that only the two dataflow loops can fail "
+                  "to return. The rest of the property is explored: every input class (soup, raw Unicode, extreme literals and sizes, include graphs, "
+                  "self-inclusion on disk) through the library in debug and release builds and the rva binary in ten flag combinations under a watchdog. "
+                  "The dataflow loops do NOT always terminate: recorded as known findings (class = the pass that hangs); any other hang/panic is a violation.",
+             design="8/C06", note=NOTE + "Partial: termination of AvailableValuePass/LivenessPass is false today (known findings) and not proved for any class; wall-clock "
+                  "polynomial bound, stack depth and OS behaviour are observed, not proved.",
+             technique="Coq proof (totality of lexer/parser/driver, absence of panic sites) + watchdogged exploration"),
+ "C11": dict(text="Functions: Coq theorems prove that function entries are created exactly for label groups containing a called name, that a label owns a "
+                  "function iff it sits on an entry, that membership lists are consistent both ways, that every listed node is reachable from the entry "
+                  "(unless an exit ecall inside the body cut the flow afterwards; unguarded right after the markup pass), that bodies are EXACTLY the "
+                  "reachable set when functions share no instruction, that any return left in a body is its exit and (no sharing) the exit is a return "
+                  "and merged returns lead only to it, and that the overlap diagnostic is given exactly for entries in two or more functions. Tied to "
+                  "graph.rs/function_annotations.rs by stage dumps; the checker recomputes the same facts on the implementation's graph.",
+             design="8/C11", note=NOTE + "Known finding D24 (sharing of a tail that contains no entry is not reported) is outside the proved 'exactly for shared entries' statement.",
+             technique="Coq proof (reachability soundness/completeness, invariants of the markup pass) + differential correspondence"),
 }
 ALL = ["C%02d" % i for i in range(1, 20)]
 checks = []
